@@ -1,6 +1,6 @@
 """C19 — hand-written derivatives are the true derivatives.
 Tie C.  The Coq model (Models/C19_derivs.v) holds the forward functions and the hand-written backward formulas of
-RBFCovariance, MaternCovariance, LogNormalCDF and _NaturalToMuVarSqrt (n = 1), proved (Props/C19.v) to be the
+RBFCovariance, MaternCovariance, LogNormalCDF, _NaturalToMuVarSqrt (n = 1) and _NgdInterpTerms (n = 1), proved (Props/C19.v) to be the
 derivatives of the forward functions.  On every run the model is executed on the `expr` carrier (vm_compute, terms
 evaluated with mpmath) and compared with what torch.autograd.grad delivers through the PUBLIC calls:
   * kernel(x1, x2) on the fast path (RBFCovariance / MaternCovariance) and on the generic autograd path: values and
@@ -9,6 +9,9 @@ evaluated with mpmath) and compared with what torch.autograd.grad delivers throu
   * NaturalVariationalDistribution / TrilNaturalVariationalDistribution: gradients w.r.t. the natural parameters
     = gradient w.r.t. the expectation parameters (n = 1 and diagonal against the Coq model; general n against
     torch autograd through an independent re-implementation of eta -> (mu, chol));
+  * CiqVariationalStrategy + NaturalVariationalDistribution (_NgdInterpTerms): one inducing value against the Coq
+    model; general case (gradients to natural_vec / natural_mat / hyperparameters through weighted mean+variance+KL, KL
+    alone, VariationalELBO) against torch autograd of a dense closed form in the expectation parameters;
   * ExactGP predictions: autograd gradient w.r.t. test inputs vs central differences."""
 import json
 import math
@@ -193,10 +196,22 @@ def gen_lncdf(rng, tier):
     zs = []
     zs += [rng.uniform(-0.199, 0.199) for _ in range(k)] + [0.0]                  # near zero (series branch)
     zs += [rng.uniform(0.21, 6.0) for _ in range(k)] + [rng.uniform(-0.99, -0.21) for _ in range(k)]   # ordinary
-    zs += [rng.uniform(-5.4, -1.001) for _ in range(2 * k)]                       # tail branch, close to its start
+    zs += [rng.uniform(-4.99, -1.001) for _ in range(k)]                          # ordinary branch, far negative side
+    zs += [rng.uniform(-5.5, -5.001) for _ in range(k)]                           # tail branch, close to its start
     zs += [rng.uniform(-30.0, -5.5) for _ in range(k)]                            # tail branch, far out
-    zs += [-1.0, 0.2, -0.2, -1.0000001]                                           # branch boundaries
-    return [dict(kind="lncdf", z=float(z)) for z in zs]
+    zs += [-1.0, 0.2, -0.2, -1.0000001, -5.0, -5.0000001, -4.9999999]             # branch boundaries
+    # upstream cotangent: random magnitude, both signs on every branch (alternating along each block)
+    cases = [dict(kind="lncdf", z=float(z), up=(-1.0) ** i * rng.uniform(0.3, 3.0)) for i, z in enumerate(zs)]
+    # vector-Jacobian products: one call on a matrix of inputs that mixes all branches, with a random-sign,
+    # non-constant cotangent of the same shape
+    for _ in range(3 if tier == "quick" else 20):
+        r, c = rng.choice([(1, 8), (2, 5), (3, 4)])
+        pool = [lambda: rng.uniform(-0.199, 0.199), lambda: rng.uniform(0.21, 6.0), lambda: rng.uniform(-0.99, -0.21),
+                lambda: rng.uniform(-4.99, -1.001), lambda: rng.uniform(-7.0, -5.01), lambda: rng.uniform(-30.0, -7.0)]
+        z = [[pool[(i * c + j) % len(pool)]() for j in range(c)] for i in range(r)]
+        G = [[rng.choice([-1.0, 1.0]) * rng.uniform(0.3, 3.0) for _ in range(c)] for _ in range(r)]
+        cases.append(dict(kind="lncdf-vec", z=z, up=G))
+    return cases
 
 
 def lncdf_branch(z):
@@ -204,22 +219,51 @@ def lncdf_branch(z):
         return "near-zero"
     if z < -5.5:
         return "far-tail"
+    if z < -5:
+        return "tail-start"             # LogNormalCDF switches to the asymptotic (tail) branch at z < -5
     if z < -1:
-        return "near-tail"
+        return "ordinary-negative"
     return "ordinary"
+
+
+def check_lncdf_vec(out, case, results):
+    """vector-Jacobian product of one call on a matrix of inputs (all branches mixed) with a random-sign cotangent:
+    entry (i,j) of the delivered gradient = G_ij * d/dz log Phi(z_ij) (Coq model term per entry)"""
+    z = torch.tensor(case["z"], requires_grad=True)
+    G = torch.tensor(case["up"])
+    v = gpytorch.functions.log_normal_cdf(z)
+    (g,) = torch.autograd.grad(v, z, grad_outputs=G)
+    k = 0
+    for i, row in enumerate(case["z"]):
+        for j, zz in enumerate(row):
+            rd = C.Reader(results[k])
+            k += 1
+            val, der = rd.expr(), rd.expr()
+            sign = "neg" if case["up"][i][j] < 0 else "pos"
+            if not C.close(v[i, j].item(), val, 0.0, LNCDF_RTOL):
+                out.fail("lncdf:vec:value:%s" % lncdf_branch(zz), "log_normal_cdf entry (%d,%d) at z=%.9g: %.12g, log Phi %.12g"
+                         % (i, j, zz, v[i, j].item(), float(val)), dict(case=case), impl=v[i, j].item(), model=float(val))
+            want = case["up"][i][j] * float(der)
+            if not C.close(g[i, j].item(), want, 0.0, LNCDF_RTOL):
+                out.fail("lncdf:vjp:%s:%s-cotangent" % (lncdf_branch(zz), sign),
+                         "vector-Jacobian product of log_normal_cdf, entry (%d,%d) at z=%.9g with upstream gradient %.6g: "
+                         "delivered %.12g, G * phi/Phi %.12g" % (i, j, zz, case["up"][i][j], g[i, j].item(), want),
+                         dict(case=case), impl=g[i, j].item(), model=want)
+    return True
 
 
 def check_lncdf(out, case, res):
     rd = C.Reader(res)
     val, der = rd.expr(), rd.expr()
     z = torch.tensor([case["z"]], requires_grad=True)
-    up = 1.7
+    up = case.get("up", 1.7)
     v = gpytorch.functions.log_normal_cdf(z)
     (g,) = torch.autograd.grad((up * v).sum(), z)
     br = lncdf_branch(case["z"])
     if not C.close(g.item() / up, der, 0.0, LNCDF_RTOL):
-        out.fail("lncdf:grad:%s" % br, "d/dz log_normal_cdf at z=%.9g: autograd %.12g, phi/Phi %.12g (rel %.2e)"
-                 % (case["z"], g.item() / up, float(der), abs(g.item() / up - float(der)) / abs(float(der))),
+        out.fail("lncdf:grad:%s:%s-cotangent" % (br, "neg" if up < 0 else "pos"),
+                 "d/dz log_normal_cdf at z=%.9g (upstream gradient %.4g): autograd/upstream %.12g, phi/Phi %.12g (rel %.2e)"
+                 % (case["z"], up, g.item() / up, float(der), abs(g.item() / up - float(der)) / abs(float(der))),
                  dict(case=case), impl=g.item() / up, model=float(der))
     h = 1e-6 * max(1.0, abs(case["z"]))
     fd = (gpytorch.functions.log_normal_cdf(torch.tensor([case["z"] + h]))
@@ -352,6 +396,211 @@ def check_nat_full(out, case):
     return ok
 
 
+# --------------------------------------------------------------------------- CIQ natural-gradient terms
+
+CIQ_JITTER = 1e-6
+CIQ_NODES = 120
+CIQ_MAX_COND = 1e3      # K_ZZ + jitter I.  Measured on the unchanged tree (2000 generated cases): quadrature error of
+# K_ZZ^{-1/2} K_ZX up to 2e-4 with 40 nodes, <= 2e-10 with 120 nodes; what remains is the CG solve with the precision inside
+# _NgdInterpTerms.forward (linear_cg runs at most M iterations): solves off by up to 7e-6, gradients by up to 4e-6
+CIQ_TOL = 1e-4          # relative to 1 + max |reference| (DESIGN: CIQ at tight settings 1e-4); 25x the measured worst case
+
+
+class _CiqGP(gpytorch.models.ApproximateGP):
+    def __init__(self, Z, bs, kern):
+        vd = gpytorch.variational.NaturalVariationalDistribution(Z.size(-2), batch_shape=bs)
+        vs = gpytorch.variational.CiqVariationalStrategy(self, Z, vd, learn_inducing_locations=True, jitter_val=CIQ_JITTER)
+        super().__init__(vs)
+        self.mean_module = gpytorch.means.ConstantMean(batch_shape=bs)
+        base = K.RBFKernel(batch_shape=bs) if kern == "rbf" else K.MaternKernel(nu=FAMS[kern] / 2.0, batch_shape=bs)
+        self.covar_module = K.ScaleKernel(base, batch_shape=bs)
+
+    def forward(self, x):
+        return gpytorch.distributions.MultivariateNormal(self.mean_module(x), self.covar_module(x))
+
+
+def ciq_tight():
+    return [gs.cg_tolerance(1e-10), gs.eval_cg_tolerance(1e-10), gs.minres_tolerance(1e-10), gs.num_contour_quadrature(CIQ_NODES),
+            gs.max_cg_iterations(2000), gs.ciq_samples(False)]
+
+
+def gen_ciq(rng, tier):
+    forms, states, kerns = ("vjp", "kl", "elbo"), ("generic", "diag", "init"), ("rbf", "matern15", "matern25")
+    reps = 36 if tier == "quick" else 216
+    return [dict(kind="ciq-ngd", form=forms[k % 3], state=states[(k // 3) % 3], batch=(k // 9) % 2 == 1, kern=kerns[(k // 18) % 3],
+                 M=rng.randint(2, 5), N=rng.randint(2, 6), D=rng.randint(1, 2), seed=rng.randrange(10 ** 6)) for k in range(reps)]
+
+
+def gen_ciq1(rng, tier):
+    """one inducing value, one data point: the case the Coq model (ciq1_*) covers; dyadic inputs, upstream gradients of
+    both signs"""
+    q = lambda lo, hi: rng.randint(lo, hi) / 8.0      # noqa: E731
+    nz = lambda: rng.choice([-1, 1]) * rng.randint(1, 24) / 8.0      # noqa: E731
+    return [dict(kind="ciq-ngd-1", k=nz(), th1=q(-24, 24), th2=-rng.randint(1, 40) / 16.0, gm=nz(), gv=nz(), gk=nz())
+            for _ in range(12 if tier == "quick" else 80)]
+
+
+def check_ciq1(out, case, res):
+    """_NgdInterpTerms applied to a 1 x 1 interpolation term: outputs and the three returned gradients against the Coq
+    model (exact rational arithmetic)"""
+    from gpytorch.variational.ciq_variational_strategy import _NgdInterpTerms
+    rd = C.Reader(res)
+    want = dict(mean=rd.expr(), var=rd.expr(), dk=rd.expr(), deta1=rd.expr(), deta2=rd.expr())
+    k = torch.tensor([[case["k"]]], requires_grad=True)
+    th1 = torch.tensor([case["th1"]], requires_grad=True)
+    th2 = torch.tensor([[case["th2"]]], requires_grad=True)
+    cms = ciq_tight()
+    for c in cms:
+        c.__enter__()
+    try:
+        im, iv, kl = _NgdInterpTerms.apply(k, th1, th2)
+        (case["gm"] * im.sum() + case["gv"] * iv.sum() + case["gk"] * kl.sum()).backward()
+    finally:
+        for c in reversed(cms):
+            c.__exit__(None, None, None)
+    got = dict(mean=im.item(), var=iv.item(), dk=k.grad.item(), deta1=th1.grad.item(), deta2=th2.grad.item())
+    ok = True
+    for name in ("mean", "var", "dk", "deta1", "deta2"):
+        if not C.close(got[name], want[name], 1e-9, 1e-9):
+            ok = False
+            out.fail("ciq-ngd:n=1:%s" % name, "_NgdInterpTerms on one inducing value: %s = %.12g, model %.12g"
+                     % (name, got[name], float(want[name])), dict(case=case), impl=got[name], model=float(want[name]))
+    return ok
+
+
+def ciq_problem(case):
+    """model with random hyperparameters, separated inducing points and a well-conditioned K_ZZ (rejection on the
+    condition number of the implementation's own kernel matrix), non-initial natural parameters"""
+    gen = torch.Generator().manual_seed(case["seed"])
+    rn = lambda *sh: torch.randn(torch.Size(sh), generator=gen)    # noqa: E731
+    ru = lambda *sh: torch.rand(torch.Size(sh), generator=gen)     # noqa: E731
+    bs = torch.Size([2]) if case["batch"] else torch.Size([])
+    M, N, D = case["M"], case["N"], case["D"]
+    for _ in range(200):
+        Z = (torch.randint(-12, 13, tuple(bs) + (M, D), generator=gen).double() / 4.0) + 0.1 * ru(*bs, M, D)
+        model = _CiqGP(Z, bs, case["kern"])
+        model.mean_module.constant = rn(*bs)
+        model.covar_module.outputscale = 0.5 + ru(*bs)
+        model.covar_module.base_kernel.lengthscale = 0.4 + 0.6 * ru(*bs, 1, 1)
+        with torch.no_grad():
+            ev = torch.linalg.eigvalsh(model.covar_module(Z).to_dense() + CIQ_JITTER * torch.eye(M))
+        if float((ev[..., -1] / ev[..., 0]).max()) <= CIQ_MAX_COND:
+            break
+    else:
+        raise RuntimeError("no well-conditioned inducing set found")
+    X, y = 3.0 * rn(*bs, N, D), rn(*bs, N)
+    R = rn(*bs, M, M)
+    prec = {"generic": R @ R.transpose(-1, -2) / M + 0.5 * torch.eye(M), "diag": torch.diag_embed(0.5 + 2.0 * ru(*bs, M)),
+            "init": torch.eye(M).expand(*bs, M, M).clone()}[case["state"]]
+    nat_vec = rn(*bs, M)
+    lik = gpytorch.likelihoods.GaussianLikelihood(batch_shape=bs)
+    lik.noise = 0.2 + ru(*bs, 1)
+    w = dict(mean=rn(*bs, N), var=rn(*bs, N), kl=rn(*bs), num_data=3 * N, beta=0.25 + float(ru(1)))
+    return model, lik, X, y, prec, nat_vec, w
+
+
+def inv_sqrt_spd(Kmat, iters=40):
+    """symmetric inverse square root by the Denman-Beavers iteration (quadratically convergent for SPD matrices, smooth
+    under torch autograd also for repeated eigenvalues, where the derivative of eigh is singular)"""
+    eye = torch.eye(Kmat.shape[-1])
+    c = Kmat.detach().diagonal(dim1=-1, dim2=-2).mean(-1)[..., None, None]
+    Y, Zm = Kmat / c, eye.expand_as(Kmat)
+    for _ in range(iters):
+        Y, Zm = 0.5 * (Y + torch.linalg.inv(Zm)), 0.5 * (Zm + torch.linalg.inv(Y))
+    res = Zm / c.sqrt()
+    resid = (res @ Kmat @ res - eye).abs().max().item()
+    assert resid < 1e-10, "reference inverse square root did not converge (%g)" % resid
+    return 0.5 * (res + res.transpose(-1, -2))
+
+
+def check_ciq_ngd(out, case):
+    """CiqVariationalStrategy + NaturalVariationalDistribution (_NgdInterpTerms): the gradients delivered to
+    natural_vec / natural_mat are d loss / d eta1, d loss / d eta2 (eta1 = m, eta2 = m m^T + S), the gradients delivered
+    to the hyperparameters / inducing points are those of the dense closed form.  loss: random-sign w.mean + v.variance +
+    c KL (vjp) | c KL alone (kl) | VariationalELBO with a Gaussian likelihood (elbo).  Reference: dense, K_ZZ^{-1/2} by
+    the Denman-Beavers iteration, explicit Gaussian KL, torch autograd w.r.t. (eta1, eta2, hyperparameters)."""
+    model, lik, X, y, prec, nat_vec, w = ciq_problem(case)
+    M, N = case["M"], case["N"]
+    vs = model.variational_strategy
+    vd = vs._variational_distribution
+    vs.variational_params_initialized.fill_(1)
+    vd.natural_vec.data.copy_(nat_vec)
+    vd.natural_mat.data.copy_(-0.5 * prec)
+    ref = _CiqGP(vs.inducing_points.detach().clone(), vd.batch_shape, case["kern"])
+    ref.load_state_dict(model.state_dict())
+    model.train(); lik.train()
+    cms = ciq_tight()
+    for c in cms:
+        c.__enter__()
+    try:
+        q = model(X)
+        if case["form"] == "vjp":
+            loss = (w["mean"] * q.mean).sum() + (w["var"] * q.variance).sum() + (w["kl"] * vs.kl_divergence()).sum()
+        elif case["form"] == "kl":
+            loss = (w["kl"] * vs.kl_divergence()).sum()
+        else:
+            loss = gpytorch.mlls.VariationalELBO(lik, model, num_data=w["num_data"], beta=w["beta"])(q, y).sum()
+        loss.backward()
+    finally:
+        for c in reversed(cms):
+            c.__exit__(None, None, None)
+    # ---- dense reference
+    Zr = ref.variational_strategy.inducing_points
+    full = torch.cat([Zr, X], -2)
+    Kf, mu = ref.covar_module(full).to_dense(), ref.mean_module(full)
+    Kzz = Kf[..., :M, :M] + CIQ_JITTER * torch.eye(M)
+    Kzx = Kf[..., :M, M:]
+    kxx = Kf[..., M:, M:].diagonal(dim1=-1, dim2=-2) + CIQ_JITTER
+    A = inv_sqrt_spd(Kzz) @ Kzx
+    S0 = torch.linalg.inv(prec)
+    m0 = (S0 @ nat_vec.unsqueeze(-1)).squeeze(-1)
+    e1 = m0.clone().requires_grad_(True)
+    e2 = (S0 + m0.unsqueeze(-1) * m0.unsqueeze(-2)).clone().requires_grad_(True)
+    S = e2 - e1.unsqueeze(-1) * e1.unsqueeze(-2)
+    mean = (A.transpose(-1, -2) @ e1.unsqueeze(-1)).squeeze(-1) + mu[..., M:]
+    var = kxx - A.pow(2).sum(-2) + (A * (S @ A)).sum(-2)
+    kl = 0.5 * (-torch.logdet(S) + S.diagonal(dim1=-1, dim2=-2).sum(-1) + (e1 * e1).sum(-1) - M)
+    if case["form"] == "vjp":
+        rl = (w["mean"] * mean).sum() + (w["var"] * var).sum() + (w["kl"] * kl).sum()
+    elif case["form"] == "kl":
+        rl = (w["kl"] * kl).sum()
+    else:
+        noise = lik.noise.detach()
+        ell = (-0.5 * (((y - mean) ** 2 + var) / noise + noise.log() + math.log(2 * math.pi))).sum(-1) / N
+        rl = (ell - kl * w["beta"] / w["num_data"]).sum()
+    skip = ("natural_vec", "natural_mat")
+    hyper = [(n, p) for n, p in ref.named_parameters() if n.split(".")[-1] not in skip]
+    grads = torch.autograd.grad(rl, [e1, e2] + [p for _, p in hyper], allow_unused=True)
+    key = "ciq-ngd:%s:%s%s" % (case["form"], case["state"], ":batch" if case["batch"] else "")
+    ok = True
+
+    def cmp(name, got, want, what):
+        nonlocal ok
+        want = torch.zeros_like(got) if want is None else want
+        got = torch.zeros_like(want) if got is None else got
+        scale = 1.0 + want.abs().max().item()
+        if got.shape != want.shape or not torch.allclose(got, want, rtol=0, atol=CIQ_TOL * scale):
+            ok = False
+            out.fail("%s:%s" % (key, name), "%s (max abs err %.3g, scale %.3g; M=%d, kernel %s)"
+                     % (what, (got - want).abs().max().item() if got.shape == want.shape else float("nan"), scale, M, case["kern"]),
+                     dict(case=case), impl=got, model=want)
+
+    if case["form"] != "kl":
+        cmp("forward-mean", q.mean.detach(), mean.detach(), "predictive mean differs from the dense closed form")
+        cmp("forward-variance", q.variance.detach(), var.detach(), "predictive variance differs from the dense closed form")
+    cmp("natural_vec", vd.natural_vec.grad, grads[0],
+        "gradient delivered to natural_vec differs from d loss / d eta1 (expectation parameters, dense reference)")
+    cmp("natural_mat", vd.natural_mat.grad, 0.5 * (grads[1] + grads[1].transpose(-1, -2)),
+        "gradient delivered to natural_mat differs from d loss / d eta2 (expectation parameters, dense reference)")
+    mine = dict(model.named_parameters())
+    for (n, _), g in zip(hyper, grads[2:]):
+        if case["form"] == "kl" and g is None and mine[n].grad is None:
+            continue
+        cmp("hyper:" + n.split(".")[-1], mine[n].grad, g,
+            "gradient delivered to %s (through the interpolation term K_ZZ^{-1/2} K_ZX) differs from the dense reference" % n)
+    return ok
+
+
 # --------------------------------------------------------------------------- prediction gradients
 
 class _GP(gpytorch.models.ExactGP):
@@ -419,6 +668,11 @@ def run_items(out, items, record=True):
             cs = kernel_coq_cases(case, kerns[idx])
         elif case["kind"] == "lncdf":
             cs = ["(DLnCdf, [[%s]], %s)" % (C.qc_lit(case["z"]), NOX2)]
+        elif case["kind"] == "lncdf-vec":
+            cs = ["(DLnCdf, [[%s]], %s)" % (C.qc_lit(zz), NOX2) for row in case["z"] for zz in row]
+        elif case["kind"] == "ciq-ngd-1":
+            cs = ["(DCiq1 %s %s %s, [[%s; %s; %s]], %s)" % (C.qc_lit(case["gm"]), C.qc_lit(case["gv"]), C.qc_lit(case["gk"]),
+                                                          C.qc_lit(case["k"]), C.qc_lit(case["th1"]), C.qc_lit(case["th2"]), NOX2)]
         elif case["kind"] == "nat-diag":
             cs = nat_coq_cases(case)
         else:
@@ -436,6 +690,15 @@ def run_items(out, items, record=True):
             elif case["kind"] == "lncdf":
                 nt = check_lncdf(out, case, r[0])
                 label = "lncdf:" + lncdf_branch(case["z"])
+            elif case["kind"] == "lncdf-vec":
+                nt = check_lncdf_vec(out, case, r)
+                label = "lncdf:vjp-matrix-all-branches"
+            elif case["kind"] == "ciq-ngd-1":
+                nt = check_ciq1(out, case, r[0])
+                label = "ciq-ngd:n=1:coq-model"
+            elif case["kind"] == "ciq-ngd":
+                nt = check_ciq_ngd(out, case)
+                label = "ciq-ngd:%s:%s%s" % (case["form"], case["state"], ":batch" if case["batch"] else "")
             elif case["kind"] == "nat-diag":
                 nt = check_nat_diag(out, case, r)
                 label = "natural-diag:%s:n=%d" % (case["cls"], case["n"])
@@ -466,25 +729,37 @@ def run(out, ctx):
     items += gen_lncdf(rng, tier)
     items += gen_nat(rng, tier)
     items += gen_pred(rng, tier)
+    items += gen_ciq(rng, tier)
+    items += gen_ciq1(rng, tier)
     out.rule = ("RBF and Matern nu in {1/2,3/2,5/2}: d in 1..3, n1, n2 in 1..4, lengthscale 10^k*U(0.5,2) for every "
                 "k in -2..2 with inputs on a dyadic grid of the same magnitude, coincident rows across and inside "
                 "x1/x2, calls K(x1,x2) and K(x1), no batch / kernel batch / kernel+input batch, Gaussian upstream G; "
                 "fast path (default) and generic path (trace_mode), each against the model and against each other. "
-                "log_normal_cdf: near-zero, ordinary, near-tail (-5.4,-1), far-tail (< -5.5) and branch boundaries. "
+                "log_normal_cdf: near-zero, ordinary, tail start (-5.5,-5), far-tail (< -5.5) and branch boundaries, every scalar "
+                "case with a random-magnitude upstream gradient of alternating sign, plus vector-Jacobian products of one call "
+                "on a matrix mixing all branches with a random-sign non-constant cotangent. "
                 "Natural / tril-natural distributions: n=1 and diagonal against the Coq model, full n<=5 (also "
-                "batched) against autograd of a re-implementation. Prediction gradients vs central differences.")
+                "batched) against autograd of a re-implementation. Prediction gradients vs central differences. "
+                "CIQ-NGD (CiqVariationalStrategy + NaturalVariationalDistribution): M in 2..5 separated inducing points with "
+                "cond(K_ZZ) <= 1e3, RBF / Matern, no batch / batch [2], natural parameters at a generic / diagonal / the "
+                "initial precision, loss = random-sign weighted mean + variance + KL | KL alone | VariationalELBO, tight CIQ "
+                "settings (120 nodes, tolerances 1e-10).")
     out.exhaustive = False
     out.extra["tolerances"] = dict(value_rtol=VAL_RTOL, value_atol_coincident_matern=VAL_ATOL_COINCIDENT,
                                    grad_fast=GRAD_TOL_FAST, grad_generic=GRAD_TOL_GENERIC, lncdf_rtol=LNCDF_RTOL,
-                                   natural=NAT_TOL, finite_difference=FD_TOL)
+                                   natural=NAT_TOL, finite_difference=FD_TOL, ciq=CIQ_TOL)
     run_items(out, items)
     out.tested_not_proved = [
-        "LogNormalCDF tail branch (z < -1) and that phi/Phi is the derivative of log Phi",
+        "LogNormalCDF tail branch (z < -5) and that phi/Phi is the derivative of log Phi",
         "_NaturalToMuVarSqrt / _TrilNaturalToMuVarSqrt for non-diagonal covariances (Cholesky differential): compared "
         "with torch autograd through an independent re-implementation of eta -> (mu, chol)",
         "prediction gradients w.r.t. test inputs: compared with central differences of the implementation",
         "autograd's chain rule and the softplus constraint between raw_lengthscale and lengthscale",
-        "CIQ natural-gradient terms (_NgdInterpTerms): not covered by this check"]
+        "CIQ natural-gradient terms (_NgdInterpTerms.backward) for more than one inducing value / data point (one of each: "
+        "proved, c19_ciq_ngd_*_partial, and compared with the Coq model): gradients delivered to natural_vec / natural_mat / "
+        "hyperparameters / inducing points through weighted mean+variance+KL, KL alone and VariationalELBO compared with "
+        "torch autograd of a dense closed form w.r.t. the expectation parameters (tolerance 1e-4 at 120 quadrature nodes, "
+        "cond(K_ZZ) <= 1e3)"]
 
 
 def replay(path):
